@@ -51,7 +51,8 @@ def binding_selftest(ctx, lib_cases, vl, srv_cases, vs, sw, trace_srv):
     for k, evs in lib_cases.items():
         tgt = [i for i, e in enumerate(evs) if e["ev"] == "process" and e["f"]]
         arr = [i for i, e in enumerate(evs) if e["ev"] == "arrive" and e["k"] > 0]
-        if k in vl.violations or not tgt or not arr:
+        total = sum(e["k"] for e in evs if e["ev"] == "arrive")
+        if k in vl.violations or not tgt or not arr or not any(e["ev"] == "process" and e["p"] == total for e in evs):
             continue
         a = copy.deepcopy(evs)
         a[0]["case"] = 0
@@ -111,7 +112,7 @@ def check(ctx):
             f.write(json.loads(payload) + "\n")
             nlib += 1
     trace_lib = ctx.path("trace-lib.ndjson")
-    li = drive(binp, ["lib", "--scenarios", scn, "--random", "40" if quick else "400", "--max-n", "300" if quick else "2000",
+    li = drive(binp, ["lib", "--scenarios", scn, "--random", "40" if quick else "300", "--max-n", "300" if quick else "1000",
                       "--seed", str(ctx.seed), "--out", trace_lib, "--sample-every", "400"])
     if li["replayed"] != nlib:
         raise c.ToolError("library replay incomplete: %s of %s" % (li["replayed"], nlib))
@@ -140,9 +141,9 @@ def check(ctx):
         for s in picked:
             f.write(json.dumps(s) + "\n")
     trace_srv = ctx.path("trace-srv.ndjson")
-    nrand = 60 if quick else 600
+    nrand = 75 if quick else 600
     si = drive(binp, ["server", "--adlt", adlt, "--work", ctx.work, "--scenarios", sscn, "--random", str(nrand), "--seed", str(ctx.seed),
-                      "--out", trace_srv, "--conns", "10", "--logs", "3" if quick else "6", "--max-n", "1500" if quick else "6000"])
+                      "--out", trace_srv, "--conns", "10", "--logs", "4" if quick else "8", "--throttles", "32:2,8:4,2:3", "--max-n", "1500" if quick else "6000"])
     sw = c.kf_switches("C16", KFS)
     vs = c.validate_trace(ctx, "srv", "StreamTrace.tla", trace_srv, sw, timeout=3000, xmx="8g")
     ctx.add_tlc("trace-validation-server", vs.res)
@@ -166,12 +167,12 @@ def check(ctx):
     nontrivial_lib_fast = li["fast_path"]     # every fast-path behaviour is a distinct TLC behaviour (counted, not stored)
     for k, evs in srv_cases.items():
         hit = False
-        multi = 0
+        multi = collections.Counter()
         for e in evs:
             if e["ev"] == "bin_msgs":
                 if e["n"]:
                     hit = True
-                    multi += 1
+                    multi[e["id"]] += 1
                     paths["data_frames"] += 1
                 else:
                     paths["query_end_marker"] += 1
@@ -192,14 +193,13 @@ def check(ctx):
                         paths["window_empty"] += 1
                     if not e["filt"]:
                         paths["unfiltered"] += 1
-        if multi >= 2:
-            paths["window_in_several_frames"] += 1
+        paths["window_in_several_frames"] += sum(1 for n in multi.values() if n >= 2)   # batch boundaries inside a window
         if hit:
             seen.add(json.dumps([e for e in evs if e["ev"] in ("ok_stream", "ok_change")][:4] + [evs[0]["hdr"]["logline"]], sort_keys=True))
     ctx.distinct_nontrivial = len(seen)
     ctx.exhaustive = True
     ctx.extra["library"] = {"tlc_behaviours": nlib, "replayed": li["replayed"], "fast_path": li["fast_path"], "slow_path": li["slow_path"],
-                            "drift": li["drift"], "steps": li["steps"], "random_cases": 40 if quick else 400,
+                            "drift": li["drift"], "steps": li["steps"], "random_cases": 40 if quick else 300,
                             "distinct_behaviours_fast_path": nontrivial_lib_fast}
     ctx.extra["server"] = {"tlc_scenarios_emitted": len(scns), "tlc_scenarios_replayed": len(picked), "random_sessions": nrand,
                            "replayed": si["cases"], "fast_path": 0, "slow_path": si["cases"], "drift": si["drift"], "drift_delivery": si["drift_delivery"], "drift_pages": si["drift_pages"],
@@ -212,14 +212,9 @@ def check(ctx):
     ctx.extra["drift"] = li["drift"] + si["drift"]
     ctx.extra["path_hits"] = dict(sorted(paths.items()))
     ctx.extra["kf_switches"] = sw
-    ctx.extra["binding_selftest"] = binding_selftest(ctx, lib_cases, vl, srv_cases, vs, sw, trace_srv)
     needed = ["data_frames", "query_end_marker", "ok_change", "quiescent", "search_continued", "ok_bsearch", "created_during_parsing",
               "window_empty", "window_in_several_frames", "lib_stream", "lib_query", "lib_grow"] + ["search_page_size_%d" % k for k in range(1, 6)]
     missing = [n for n in needed if paths[n] == 0]
-    if missing:
-        raise c.ToolError("vacuity: paths never hit: %s" % missing)
-    if si["server_exit"]:
-        raise c.ToolError("a server process exited during the run: %s" % si["server_exit"])
     for k in list(srv_cases)[:1] + list(srv_cases)[-2:]:
         ctx.add_sample({"layer": "server", "case": k, "trace": [({kk: vv for kk, vv in e.items() if kk != "msgs"}) for e in srv_cases[k][:12]]})
     for k in list(lib_cases)[-2:]:
@@ -236,6 +231,12 @@ def check(ctx):
                           {"layer": name, "case": k, "trace": cases.get(k), "first_unmatched": r[2] if r else None,
                            "server_panics": si["panics"],
                            "how": "bin/check C16 %s with VERIF_SEED=%d (the log files are regenerated under work/C16/files)" % (ctx.tier, ctx.seed)})
+    if not ctx.violations:          # tool-level sanity only when there is no verdict to report (never masks a violation)
+        if missing:
+            raise c.ToolError("vacuity: paths never hit: %s" % missing)
+        if si["server_exit"]:
+            raise c.ToolError("a server process exited during the run: %s" % si["server_exit"])
+        ctx.extra["binding_selftest"] = binding_selftest(ctx, lib_cases, vl, srv_cases, vs, sw, trace_srv)
     ctx.assumptions = ["TLC and CommunityModules are correct", "the driver's projection (frame decoding with the repo's own bincode types, "
                        "field extraction, 31-bit text hash) is correct", "websocket frames are received in the order the server wrote them",
                        "the generated logs have one lifecycle per ECU with reception time = start + timestamp (no time sorting needed)"]
